@@ -268,6 +268,7 @@ def c09_shipped(cfg):
 class Gen:
     def __init__(self, seed, n_series, n_products, features):
         self.r = random.Random(seed)
+        self.r2 = random.Random(seed * 7919 + 13)  # separate stream: parenthesisation does not change which programs are drawn
         self.n_series, self.n_products, self.features = n_series, n_products, features
 
     def program(self):
@@ -338,7 +339,10 @@ class Gen:
         c = r.random()
         if depth > 0 and c < 0.45:
             op = r.choice(["+", "-"])
-            t = f"{t} {op} {self.expr(pool, depth - 1, under_cond)}"
+            sub = self.expr(pool, depth - 1, under_cond)
+            if "paren" in self.features and " if " not in sub and self.r2.random() < 0.5:
+                sub = f"({sub})"  # right operand that is itself a sum: the flattening must distribute the sign
+            t = f"{t} {op} {sub}"
         elif "div" in self.features and c < 0.6:
             t = f"({t}) / {r.choice([2, -2, 3, -1])}"
         elif c < 0.68:
@@ -438,7 +442,7 @@ def configs(tier, seed):
     # `hermitian` on a product is a promise of the author that the product IS Hermitian (the compiled code then takes
     # the half-sum shortcut); random products do not keep that promise, so generated programs declare all products `pass`
     # (the shortcut itself is validated on the shipped algorithm's "U'† @ U'" and by C18).
-    feats_all = ["start", "marker", "cond", "adj", "func", "div", "ifexp", "product3", "wrappers"]
+    feats_all = ["start", "marker", "cond", "adj", "func", "div", "ifexp", "product3", "wrappers", "paren"]
     nprog = 40 if tier == "quick" else 400
     chunk = 5
     base = 1000
